@@ -1743,6 +1743,189 @@ def rule_coindexed(chk):
     chk.floor('loops reading coordinates and h of one array', n, 20)
 
 
+def _rows(fn, table_attrs, param_rows=None):
+    """local names of `fn` that hold one array's row of a per-array table: {name: attr} - assigned from self.<attr>[...] (or self.current_<attr>...), or a parameter known
+    (from the call sites, param_rows) to receive such a row"""
+    rows = dict(param_rows or {})
+    for a in ast.walk(fn):
+        if isinstance(a, (ast.Assign, ast.AnnAssign)) and getattr(a, 'value', None) is not None:
+            tg = a.targets[0] if isinstance(a, ast.Assign) else a.target
+            v = a.value
+            while isinstance(v, ast.Call) and compact(v.func) in ('__cast__', 'cast') and v.args:
+                v = v.args[-1]
+            if isinstance(tg, ast.Name) and isinstance(v, ast.Subscript) and isinstance(v.value, ast.Attribute) and compact(v.value.value) == 'self' and v.value.attr in table_attrs:
+                rows[tg.id] = v.value.attr
+    return rows
+
+
+def _param_rows(cls, table_attrs):
+    """{method name: {parameter: attr}}: parameters that receive a table row at every call site inside the class (followed through forwarding methods, to a fixed point)"""
+    meths = M.methods(cls)
+    res = dict((m_, {}) for m_ in meths)
+    for _ in range(4):
+        changed = False
+        for caller, fn in meths.items():
+            rows = _rows(fn, table_attrs, res.get(caller))
+            for c in M.calls(fn):
+                if isinstance(c.func, ast.Attribute) and compact(c.func.value) == 'self' and c.func.attr in meths:
+                    params = [a.arg for a in meths[c.func.attr].args.args][1:]
+                    for p_, a_ in zip(params, c.args):
+                        if isinstance(a_, ast.Name) and a_.id in rows and res[c.func.attr].get(p_) != rows[a_.id]:
+                            res[c.func.attr][p_] = rows[a_.id]
+                            changed = True
+        if not changed:
+            break
+    return res
+
+
+def rule_index_spaces(chk):
+    """the Z-order classes keep two numberings of the particles of an array - the particle id and the position in the key-sorted order - and tables in each: `cids` (cell id
+    of a particle) is filled per particle id, `pids` / `keys` are in sorted order, `key_to_idx` maps a key to a sorted position.  Every subscript of a `cids` row must be a
+    particle id: a value read from a `pids` row (or the destination index of the query).  A sorted position used there reads the cell id of an unrelated particle."""
+    rel = 'pysph/base/z_order_nnps.pyx'
+    tables = ('cids', 'pids', 'keys', 'key_to_idx')
+    n = 0
+    for cls in M.classes(M.cy(rel)):
+        prow = _param_rows(cls, tables)
+        for mname, fn in sorted(M.methods(cls).items()):
+            rows = _rows(fn, tables, prow.get(mname))
+            M.set_parents(fn)
+            for sub in ast.walk(fn):
+                if not (isinstance(sub, ast.Subscript) and isinstance(sub.value, ast.Name) and rows.get(sub.value.id) == 'cids'):
+                    continue
+
+                def space(e, depth=0):
+                    if isinstance(e, ast.Subscript) and isinstance(e.value, ast.Name) and rows.get(e.value.id) == 'pids':
+                        return 'particle id'
+                    if isinstance(e, ast.Subscript) and isinstance(e.value, ast.Name) and rows.get(e.value.id) == 'key_to_idx':
+                        return 'sorted position'
+                    if isinstance(e, ast.Call) and (M.call_name(e) or '').split('.')[-1] == 'get_idx':
+                        return 'sorted position'
+                    if isinstance(e, ast.Subscript) and isinstance(e.value, ast.Name) and 'found' in e.value.id:
+                        return 'sorted position'
+                    if isinstance(e, ast.Name) and depth < 4:
+                        if e.id in ('d_idx', 's_idx'):
+                            return 'particle id'
+                        defs = [a.value for a in ast.walk(fn) if isinstance(a, ast.Assign) and any(isinstance(t_, ast.Name) and t_.id == e.id for t_ in a.targets)]
+                        defs += [a.value for a in ast.walk(fn) if isinstance(a, ast.AnnAssign) and isinstance(a.target, ast.Name) and a.target.id == e.id and a.value is not None]
+                        sp = set(space(d_, depth + 1) for d_ in defs)
+                        if len(sp) == 1:
+                            return sp.pop()
+                        return 'unknown (%s)' % sorted(sp) if sp else 'unknown'
+                    return 'unknown'
+                sp = space(sub.slice)
+                n += 1
+                chk.decide(sp == 'particle id', 'table-index-spaces', '%s.%s:cids[%s]' % (cls.name, mname, compact(sub.slice)), node=sub, file=rel, func='%s.%s' % (cls.name, mname),
+                           detail_bad='the cell-id table, which is filled per particle id, is subscripted with a %s (`%s`): the cell id - and with it the maximum smoothing length '
+                                      'that prunes the neighbour boxes - is that of an unrelated particle, so boxes holding true neighbours are dropped' % (sp, compact(sub)),
+                           detail_ok='subscripted with a particle id')
+    chk.floor('subscripts of cell-id tables', n, 9)
+
+
+COUNT_TEXT = ('get_number_of_particles()', '.length', 'num_particles')
+
+
+def _is_count(e, defs):
+    t = compact(N.inline(e, defs)) if defs is not None else compact(e)
+    return any(k in t for k in COUNT_TEXT)
+
+
+def _zero_side(test, defs):
+    """(True, ...) when `test` holds exactly for an empty array, (False, ...) when it holds exactly for a non-empty one, None otherwise"""
+    t = test
+    if isinstance(t, ast.UnaryOp) and isinstance(t.op, ast.Not) and _is_count(t.operand, defs):
+        return True
+    if isinstance(t, ast.Compare) and len(t.ops) == 1 and _is_count(t.left, defs) and isinstance(t.comparators[0], ast.Constant):
+        c, op = t.comparators[0].value, t.ops[0]
+        if (c == 0 and isinstance(op, (ast.Eq, ast.LtE))) or (c == 1 and isinstance(op, ast.Lt)):
+            return True
+        if (c == 0 and isinstance(op, (ast.Gt, ast.NotEq))) or (c == 1 and isinstance(op, ast.GtE)):
+            return False
+    if _is_count(t, defs) and isinstance(t, (ast.Name, ast.Attribute, ast.Call)):
+        return False
+    return None
+
+
+def rule_first_element(chk):
+    """an array of the problem may be empty (the quantifier says so; inlets start empty): a per-array table sized by the particle count then has no element, so element 0
+    of such a table may be read only where the count is known to be positive - after `if n == 0: return / continue`, under `if n > 0`, or inside a loop over range(n)"""
+    n = 0
+    for rel, tables in (('pysph/base/z_order_nnps.pyx', ('pids', 'keys', 'cids')), ('pysph/base/stratified_sfc_nnps.pyx', ('pids', 'keys')), ('pysph/base/cell_indexing_nnps.pyx', ('keys',))):
+        for cls in M.classes(M.cy(rel)):
+            prow = _param_rows(cls, tables)
+            for mname, fn in sorted(M.methods(cls).items()):
+                rows = _rows(fn, tables, prow.get(mname))
+                if not rows:
+                    continue
+                M.set_parents(fn)
+                defs = N.local_defs(fn.body)
+                sites = {}
+                for sub in ast.walk(fn):
+                    if isinstance(sub, ast.Subscript) and isinstance(sub.ctx, ast.Load) and isinstance(sub.value, ast.Name) and sub.value.id in rows \
+                            and isinstance(sub.slice, ast.Constant) and sub.slice.value == 0:
+                        sites.setdefault(rows[sub.value.id], []).append(sub)
+                for attr, subs in sorted(sites.items()):
+                    unguarded = []
+                    for sub in subs:
+                        ok = False
+                        node = sub
+                        while node is not fn and not ok:
+                            par = node.parent
+                            if isinstance(par, ast.If):
+                                z = _zero_side(par.test, defs)
+                                if (z is False and node in par.body) or (z is True and node in par.orelse):
+                                    ok = True
+                            if isinstance(par, ast.For) and node in par.body and isinstance(par.iter, ast.Call) and compact(par.iter.func) == 'range' and par.iter.args \
+                                    and _is_count(par.iter.args[-1 if len(par.iter.args) < 3 else 1], defs) and (len(par.iter.args) == 1 or compact(par.iter.args[0]) == '0'):
+                                ok = True
+                            for fld in ('body', 'orelse'):
+                                blk = getattr(par, fld, None)
+                                if isinstance(blk, list) and node in blk:
+                                    for prev in blk[:blk.index(node)]:
+                                        if isinstance(prev, ast.If) and _zero_side(prev.test, defs) is True and prev.body and isinstance(prev.body[-1], (ast.Return, ast.Continue, ast.Break, ast.Raise)):
+                                            ok = True
+                            node = par
+                        if not ok:
+                            unguarded.append(sub)
+                    n += 1
+                    chk.decide(not unguarded, 'empty-arrays', '%s.%s:first-element-of-%s' % (cls.name, mname, attr), node=(unguarded or subs)[0], file=rel, func='%s.%s' % (cls.name, mname),
+                               detail_bad='element 0 of a row of self.%s - which has as many elements as the array has particles - is read (%s, line(s) %s) where the array may be empty: '
+                                          'for an empty particle array (an inlet before its first particles, an array all of whose particles were removed) this reads - and with the value read '
+                                          'writes - outside the table' % (attr, compact(unguarded[0]) if unguarded else '', sorted(set(x.lineno for x in unguarded))),
+                               detail_ok='read only where the particle count is known to be positive')
+    chk.floor('first-element reads of per-array tables', n, 6)
+
+
+def rule_field_widths(chk):
+    """CellIndexingNNPS packs (particle id, cell x, cell y, cell z) into one integer; the number of bits of a field is 1 + log2(extent of the field).  log2 of 0 is -inf and
+    its conversion to an unsigned width undefined (in practice 0 bits: the field then aliases its neighbour and one cell is found under two keys - duplicates): the argument of
+    every log2 that sizes a field must be at least 1 by construction (fmax(1, .) / max(1, .)), since a point set may have no extent along an axis and an array no particle"""
+    rel = 'pysph/base/cell_indexing_nnps.pyx'
+    n = 0
+    for cls in M.classes(M.cy(rel)):
+        for mname, fn in sorted(M.methods(cls).items()):
+            defs = N.local_defs(fn.body)
+            for a in ast.walk(fn):
+                if not (isinstance(a, ast.Assign) and isinstance(a.targets[0], (ast.Attribute, ast.Subscript)) and compact(a.targets[0]).startswith('self.')):
+                    continue
+                for c in M.calls(a.value):
+                    if (M.call_name(c) or '').split('.')[-1] != 'log2' or not c.args:
+                        continue
+                    arg = N.inline(c.args[0], defs)
+                    ok = False
+                    if isinstance(arg, ast.Call) and (M.call_name(arg) or '').split('.')[-1] in ('fmax', 'max') and len(arg.args) == 2:
+                        ok = any(isinstance(x, ast.Constant) and isinstance(x.value, (int, float)) and x.value >= 1 for x in arg.args)
+                    if isinstance(arg, ast.Constant) and isinstance(arg.value, (int, float)) and arg.value >= 1:
+                        ok = True
+                    n += 1
+                    chk.decide(ok, 'key-fields-hold-their-values', '%s.%s:%s' % (cls.name, mname, compact(a.targets[0])), node=a, file=rel, func='%s.%s' % (cls.name, mname),
+                               detail_bad='%s = ... log2(%s) ...: the argument is 0 for a point set without extent along that axis (all particles in one plane or on one line) or for an '
+                                          'empty array; the width then comes out as 0 bits, the field aliases the next one and a neighbouring cell is found twice: duplicate neighbours'
+                                          % (compact(a.targets[0]), compact(c.args[0])),
+                               detail_ok='argument of log2 bounded below by 1')
+    chk.floor('bit-field widths computed with log2', n, 3)
+
+
 def rule_cell_counts(chk):
     """the grid has at least one cell along every direction, whatever the extent of the particles: the flattened-index validity test rejects every cell of a direction
     with a count of 0 (all particles in a plane / on a line of a direction the problem does use), so every query would come back empty.  Per path through
@@ -1877,6 +2060,9 @@ def main(chk):
     rule_cell_size(chk)
     rule_cell_counts(chk)
     rule_sized_by_count(chk)
+    rule_index_spaces(chk)
+    rule_first_element(chk)
+    rule_field_widths(chk)
     rule_level_stencil(chk)
     rule_no_pruning(chk, ci, concrete)
     rule_octree(chk)
